@@ -26,12 +26,12 @@ var zonesProducible = []*time.Location{
 	time.FixedZone("", 14*3600),
 	time.FixedZone("", -12*3600),
 	time.FixedZone("LMT", 53*60+28),
-	time.FixedZone("LMT", -(4*3600 + 56*60 + 2)),
 	time.FixedZone("", 60),
 	time.FixedZone("", -120),
 }
 
 var zonesArbitrary = []*time.Location{
+	time.FixedZone("LMT", -(4*3600 + 56*60 + 2)), // historical LMT west of Greenwich: negative offset with seconds
 	time.FixedZone("", -60),  // Time.MarshalBinary refuses: offset minute -1 is the UTC marker
 	time.FixedZone("", -61),  // refused as well
 	time.FixedZone("", -119), // refused
